@@ -96,6 +96,7 @@ func (c07) Gen(r *sim.Rand, c *sim.Case, tier string) {
 		g.HFOncePerKind, g.RectTablesOnly, g.WellFormedMath = true, true, true
 		g.ObsEvery = 4
 		g.StyleEdits = true
+		g.ObsExport = true
 		g.BigImages = r.Chance(0.2)
 		if !Wild {
 			if i != noteDoc {
@@ -577,6 +578,9 @@ func (c07) Witnesses() []*sim.Case {
 		mk("process-wide registries: endnotes of two documents", doc(0, en("a")), doc(2, en("c"), en("d"))),
 		mk("converter-options-remember-first-directory (fixed): two Markdown files converted by one Converter without options",
 			doc(0, sim.Op{K: "mdfile", I: []int{-1}, S: []sim.Str{"first ![](pic.png)\n"}}), doc(2, sim.Op{K: "mdfile", I: []int{-1}, S: []sim.Str{"second ![](pic.png)\n"}})),
+		mk("exporter-options-leak (fixed): two documents exported by one Exporter, the first with options, the second without",
+			[]sim.Op{{K: "para", D: 0, S: []sim.Str{"alpha"}}, {K: "t.new", D: 0, I: []int{2, 2, 5000, 0, 1}, S: []sim.Str{"a", "b", "c", "d"}}, {K: "obs", D: 0, I: []int{0, 2}}},
+			[]sim.Op{{K: "para", D: 2, S: []sim.Str{"beta"}}, {K: "t.new", D: 2, I: []int{2, 2, 5000, 0, 1}, S: []sim.Str{"e", "f", "g", "h"}}, {K: "obs", D: 2, I: []int{0, 1}}}),
 		mk("process-wide registries: list definitions of two documents", doc(0, li("x", "number", 1), li("y", "bullet", 1)), doc(2, li("z", "lowerRoman", 1))),
 	}
 }
